@@ -36,24 +36,25 @@ Definition utf8_enc (cp : Z) : list Z :=
   else if cp <? 65536 then [224 + Z.shiftr cp 12; 128 + Z.land (Z.shiftr cp 6) 63; 128 + Z.land cp 63]
   else [240 + Z.shiftr cp 18; 128 + Z.land (Z.shiftr cp 12) 63; 128 + Z.land (Z.shiftr cp 6) 63; 128 + Z.land cp 63].
 
+(* the second half of a surrogate pair: after `p += 6`, p[-1] must be '\\', *p 'u', then 4 digits; i = index of the first 'u' *)
+Definition unesc_lo (p : list Z) (i cp : Z) : res (option (Z * Z)) :=
+  match rd p (i + 5) with None => Oob (i + 5) | Some b5 => if negb (b5 =? 92) then Ok None else
+  match rd p (i + 6) with None => Oob (i + 6) | Some b6 => if negb (b6 =? 117) then Ok None else
+  match hex4 p (i + 6) with
+  | Fuel => Fuel | Oob x => Oob x
+  | Ok None => Ok None
+  | Ok (Some cp2) =>
+    if negb (Z.land cp2 64512 =? 56320) then Ok None
+    else Ok (Some (65536 + Z.shiftl (cp - 55296) 10 + (cp2 - 56320), i + 6))
+  end end end.
+
 (* the \u branch: i = index of the 'u'.  Ok None = invalid code point; Ok (Some (cp, i')) = code point and the index of the
    'u' whose 4 digits were consumed last (p += 5 follows) *)
 Definition unesc_u (p : list Z) (i : Z) : res (option (Z * Z)) :=
   match hex4 p i with
   | Fuel => Fuel | Oob x => Oob x
   | Ok None => Ok None
-  | Ok (Some cp) =>
-    if Z.land cp 64512 =? 55296 then        (* high surrogate: p += 6; p[-1] must be '\\', *p 'u', then 4 digits *)
-      match rd p (i + 5) with None => Oob (i + 5) | Some b5 => if negb (b5 =? 92) then Ok None else
-      match rd p (i + 6) with None => Oob (i + 6) | Some b6 => if negb (b6 =? 117) then Ok None else
-      match hex4 p (i + 6) with
-      | Fuel => Fuel | Oob x => Oob x
-      | Ok None => Ok None
-      | Ok (Some cp2) =>
-        if negb (Z.land cp2 64512 =? 56320) then Ok None
-        else Ok (Some (65536 + Z.shiftl (cp - 55296) 10 + (cp2 - 56320), i + 6))
-      end end end
-    else Ok (Some (cp, i))
+  | Ok (Some cp) => if Z.land cp 64512 =? 55296 then unesc_lo p i cp else Ok (Some (cp, i))
   end.
 
 (* the one-byte escapes (backslash, slash, double quote, b f n r t); what the escape r stores is read off the
